@@ -12,7 +12,7 @@ import (
 // a second run changes nothing.
 func H_C10_rewrite() {
 	vxrt.EnvFixed("NO_COLOR", "1")
-	calibrateExamineSnaps()
+	vxCalibrateExamineSnaps()
 	dir := vxrt.Dir()
 	path := dir + "/f.snap"
 	k := vxrt.Len("frames", 1, vxrt.Param("frames", 3))
@@ -34,15 +34,15 @@ func H_C10_rewrite() {
 		names[i] = "Test" + l
 		ids[i] = names[i] + " - " + d
 		bodies[i] = vxrt.Text("body", vxrt.Len("body-len", 0, n))
-		vxrt.Assume(noCRAtEOL(bodies[i]))
-		vxrt.Assume(noTerminatorLine(bodies[i]))
+		vxrt.Assume(vxNoCRAtEOL(bodies[i]))
+		vxrt.Assume(vxNoTerminatorLine(bodies[i]))
 		for j := 0; j < i; j++ {
-			vxrt.Assume(differs(ids[i], ids[j])) // well-formed file: ids pairwise distinct
+			vxrt.Assume(vxDiffers(ids[i], ids[j])) // well-formed file: ids pairwise distinct
 		}
 		stale[i] = vxrt.Bool("stale")
-		content += frame(ids[i], bodies[i])
+		content += vxFrame(ids[i], bodies[i])
 	}
-	writeFile(path, content)
+	vxWriteFile(path, content)
 	// registry: every non-stale id is registered (count 1): name -> highest ordinal is not
 	// what occurrences() expects, so register through the set it builds: use count = 1 and
 	// one map entry per id by making the per-name counter equal to the ordinal when it is
@@ -64,7 +64,7 @@ func H_C10_rewrite() {
 			continue
 		}
 		nm := names[i]
-		ord := atoiSmall(ids[i][len(nm)+3:])
+		ord := vxAtoiSmall(ids[i][len(nm)+3:])
 		if ord > reg[path][nm] {
 			reg[path][nm] = ord
 		}
@@ -98,13 +98,13 @@ func H_C10_rewrite() {
 		vxrt.Reach("rewrite")
 	}
 	// survivors replay their value, each exactly once
-	after := readFile(path)
+	after := vxReadFile(path)
 	total := 0
 	for i := 0; i < k; i++ {
 		survives := !(update && stale[i])
-		got, _, err := refPrev("["+ids[i]+"]", path)
+		got, _, err := vxRefPrev("["+ids[i]+"]", path)
 		if survives {
-			total += len(frame(ids[i], bodies[i]))
+			total += len(vxFrame(ids[i], bodies[i]))
 			vxrt.Assert(err == nil, "C10:survivor-present")
 			vxrt.Assert(vxrt.Eq(got, bodies[i]), "C10:survivor-value-unchanged")
 		} else {
@@ -117,7 +117,7 @@ func H_C10_rewrite() {
 		var order []string
 		sc := 0
 		_ = sc
-		lines := splitLines(after)
+		lines := vxSplitLines(after)
 		for _, ln := range lines {
 			if id, ok := getTestID([]byte(ln)); ok {
 				order = append(order, id)
@@ -134,10 +134,10 @@ func H_C10_rewrite() {
 	reg2 := map[string]map[string]int{path: reg[path]}
 	_, err = examineSnaps(reg2, []string{path}, "", 1, update, sortOpt)
 	vxrt.Assert(err == nil && vxrt.FSStamp() == stamp2, "C10:second-run-changes-nothing")
-	vxrt.Assert(vxrt.Eq(readFile(path), after), "C10:second-run-same-bytes")
+	vxrt.Assert(vxrt.Eq(vxReadFile(path), after), "C10:second-run-same-bytes")
 }
 
-func atoiSmall(s string) int {
+func vxAtoiSmall(s string) int {
 	n := 0
 	for i := 0; i < len(s); i++ {
 		n = n*10 + int(s[i]-'0')
@@ -145,7 +145,7 @@ func atoiSmall(s string) int {
 	return n
 }
 
-func splitLines(s string) []string {
+func vxSplitLines(s string) []string {
 	var out []string
 	cur := ""
 	for i := 0; i < len(s); i++ {
@@ -164,7 +164,7 @@ func splitLines(s string) []string {
 
 // hasHeaderLikeLine: some whole line of body has the shape Clean recognises
 // as an entry header: starts with "[Test", ends with "]".
-func hasHeaderLikeLine(body string) bool {
+func vxHasHeaderLikeLine(body string) bool {
 	n := len(body)
 	found := false
 	for p := 0; p+6 <= n; p++ {
@@ -182,7 +182,7 @@ func hasHeaderLikeLine(body string) bool {
 // the structured entry must replay exactly what it held.
 func H_C10_bodies() {
 	vxrt.EnvFixed("NO_COLOR", "1")
-	calibrateExamineSnaps()
+	vxCalibrateExamineSnaps()
 	dir := vxrt.Dir()
 	path := dir + "/f.snap"
 	var body string
@@ -200,36 +200,36 @@ func H_C10_bodies() {
 		vxrt.Assume(vxrt.And(vxrt.And(c[0] >= 'A', c[0] <= 'Z'), vxrt.And(c[0] != 'A', c[0] != 'B')))
 		body = "a\n[Test" + c + " - 1]\nb"
 	} else {
-		body = structText("body", vxrt.Param("lines", 2))
+		body = vxStructText("body", vxrt.Param("lines", 2))
 	}
-	vxrt.Assume(noTerminatorLine(body))
-	other := frame("TestB - 1", "x")
-	mine := frame("TestA - 1", body)
+	vxrt.Assume(vxNoTerminatorLine(body))
+	other := vxFrame("TestB - 1", "x")
+	mine := vxFrame("TestA - 1", body)
 	reg := map[string]map[string]int{path: {"TestA": 1}}
 	update, sortOpt := false, false
 	switch vxrt.Choice("rewrite-reason", 3) {
 	case 0: // pruning: TestB is stale, clean mode
-		writeFile(path, other+mine)
+		vxWriteFile(path, other+mine)
 		update = true
 	case 1: // sorting: both live, unsorted
-		writeFile(path, other+mine)
+		vxWriteFile(path, other+mine)
 		reg[path]["TestB"] = 1
 		sortOpt = true
 	default: // pruning with the stale entry after
-		writeFile(path, mine+other)
+		vxWriteFile(path, mine+other)
 		update = true
 	}
 	stamp := vxrt.FSStamp()
 	_, err := examineSnaps(reg, []string{path}, "", 1, update, sortOpt)
 	vxrt.Assert(err == nil && vxrt.FSStamp() != stamp, "C10:file-rewritten")
-	got, _, err := refPrev("[TestA - 1]", path)
+	got, _, err := vxRefPrev("[TestA - 1]", path)
 	vxrt.Assert(err == nil, "C10:survivor-present")
 	vxrt.Assert(vxrt.Eq(got, body), "C10:survivor-value-unchanged")
 	want := mine
 	if sortOpt {
 		want = mine + other
 	}
-	vxrt.Assert(vxrt.Eq(readFile(path), want), "C10:no-duplicate-no-residue")
+	vxrt.Assert(vxrt.Eq(vxReadFile(path), want), "C10:no-duplicate-no-residue")
 }
 
 // H_C10_natural: two live entries of one test with a one-digit and a two-digit
@@ -237,26 +237,26 @@ func H_C10_bodies() {
 // in numeric order of the ordinals and is written only if it was not.
 func H_C10_natural() {
 	vxrt.EnvFixed("NO_COLOR", "1")
-	calibrateExamineSnaps()
+	vxCalibrateExamineSnaps()
 	dir := vxrt.Dir()
 	path := dir + "/f.snap"
 	d1 := vxrt.Text("one-digit", 1)
 	d2 := vxrt.Text("two-digits", 2)
 	vxrt.Assume(vxrt.And(d1[0] >= '1', d1[0] <= '9'))
 	vxrt.Assume(vxrt.And(vxrt.And(d2[0] >= '1', d2[0] <= '9'), vxrt.And(d2[1] >= '0', d2[1] <= '9')))
-	small := frame("Testa - "+d1, "x")
-	big := frame("Testa - "+d2, "y")
+	small := vxFrame("Testa - "+d1, "x")
+	big := vxFrame("Testa - "+d2, "y")
 	bigFirst := vxrt.Bool("two-digit-ordinal-first")
 	if bigFirst {
-		writeFile(path, big+small)
+		vxWriteFile(path, big+small)
 	} else {
-		writeFile(path, small+big)
+		vxWriteFile(path, small+big)
 	}
 	reg := map[string]map[string]int{path: {"Testa": 99}}
 	stamp := vxrt.FSStamp()
 	obsolete, err := examineSnaps(reg, []string{path}, "", 1, false, true)
 	vxrt.Assert(err == nil && len(obsolete) == 0, "C10:examine-succeeds")
-	vxrt.Assert(vxrt.Eq(readFile(path), small+big), "C10:sorted-in-natural-order")
+	vxrt.Assert(vxrt.Eq(vxReadFile(path), small+big), "C10:sorted-in-natural-order")
 	vxrt.Assert((vxrt.FSStamp() != stamp) == bigFirst, "C10:written-only-if-unsorted")
 }
 
@@ -265,61 +265,61 @@ func H_C10_natural() {
 // idempotent and must not rewrite a file it already considers sorted.
 func H_C10_ties() {
 	vxrt.EnvFixed("NO_COLOR", "1")
-	calibrateExamineSnaps()
+	vxCalibrateExamineSnaps()
 	dir := vxrt.Dir()
 	path := dir + "/f.snap"
 	d := vxrt.Text("digit", 1)
 	vxrt.Assume(vxrt.And(d[0] >= '1', d[0] <= '9'))
-	a := frame("TestPad/0"+d+" - 1", "x")
-	b := frame("TestPad/"+d+" - 1", "y")
+	a := vxFrame("TestPad/0"+d+" - 1", "x")
+	b := vxFrame("TestPad/"+d+" - 1", "y")
 	if vxrt.Bool("zero-padded-first") {
-		writeFile(path, a+b)
+		vxWriteFile(path, a+b)
 	} else {
-		writeFile(path, b+a)
+		vxWriteFile(path, b+a)
 	}
 	reg := map[string]map[string]int{path: {"TestPad/0" + d: 1, "TestPad/" + d: 1}}
 	_, err := examineSnaps(reg, []string{path}, "", 1, false, true)
 	vxrt.Assert(err == nil, "C10:examine-succeeds")
-	after := readFile(path)
-	ga, _, ea := refPrev("[TestPad/0"+d+" - 1]", path)
-	gb, _, eb := refPrev("[TestPad/"+d+" - 1]", path)
+	after := vxReadFile(path)
+	ga, _, ea := vxRefPrev("[TestPad/0"+d+" - 1]", path)
+	gb, _, eb := vxRefPrev("[TestPad/"+d+" - 1]", path)
 	vxrt.Assert(ea == nil && eb == nil && ga == "x" && gb == "y", "C10:survivor-value-unchanged")
 	stamp := vxrt.FSStamp()
 	_, err = examineSnaps(reg, []string{path}, "", 1, false, true)
 	vxrt.Assert(err == nil && vxrt.FSStamp() == stamp, "C10:second-run-changes-nothing")
-	vxrt.Assert(vxrt.Eq(readFile(path), after), "C10:second-run-same-bytes")
+	vxrt.Assert(vxrt.Eq(vxReadFile(path), after), "C10:second-run-same-bytes")
 }
 
 // H_C10_names: entries of tests with unusual but legal names (brackets, '#', dashes, non-ASCII,
 // benchmark and fuzz prefixes) survive a rewrite - pruning or sorting - with their values.
 func H_C10_names() {
 	vxrt.EnvFixed("NO_COLOR", "1")
-	calibrateExamineSnaps()
+	vxCalibrateExamineSnaps()
 	dir := vxrt.Dir()
 	path := dir + "/f.snap"
 	names := []string{"TestA/[x]", "TestA/]", "TestA/x_-_1", "TestA/#01", "TestÄ/ü", "TestA/a-b", "BenchmarkB/[8]", "FuzzF/seed#1", "TestA/[TestZ_-_1]"}
 	name := names[vxrt.Choice("name", len(names))]
-	mine := frame(name+" - 1", "mine")
-	other := frame("TestB - 1", "x")
+	mine := vxFrame(name+" - 1", "mine")
+	other := vxFrame("TestB - 1", "x")
 	reg := map[string]map[string]int{path: {name: 1}}
 	update, sortOpt := false, false
 	switch vxrt.Choice("rewrite-reason", 3) {
 	case 0:
-		writeFile(path, other+mine)
+		vxWriteFile(path, other+mine)
 		update = true
 	case 1:
 		// both live; unsorted in natural order whichever way round
-		writeFile(path, frame("TestZZ - 1", "zz")+mine+other)
+		vxWriteFile(path, vxFrame("TestZZ - 1", "zz")+mine+other)
 		reg[path]["TestB"] = 1
 		reg[path]["TestZZ"] = 1
 		sortOpt = true
 	default:
-		writeFile(path, mine+other)
+		vxWriteFile(path, mine+other)
 		update = true
 	}
 	_, err := examineSnaps(reg, []string{path}, "", 1, update, sortOpt)
 	vxrt.Assert(err == nil, "C10:examine-succeeds")
-	got, _, err := refPrev("["+name+" - 1]", path)
+	got, _, err := vxRefPrev("["+name+" - 1]", path)
 	vxrt.Assert(err == nil, "C10:survivor-present")
 	vxrt.Assert(got == "mine", "C10:survivor-value-unchanged")
 }
@@ -328,22 +328,22 @@ func H_C10_names() {
 // nor sorting is not written, whatever an earlier or later file of the same run needed.
 func H_C10_secondfile() {
 	vxrt.EnvFixed("NO_COLOR", "1")
-	calibrateExamineSnaps()
+	vxCalibrateExamineSnaps()
 	dir := vxrt.Dir()
 	pa, pb, pc := dir+"/a.snap", dir+"/b.snap", dir+"/c.snap"
-	clean := frame("TestB - 1", "x") + frame("TestB - 2", "y")
-	writeFile(pb, clean)
+	clean := vxFrame("TestB - 1", "x") + vxFrame("TestB - 2", "y")
+	vxWriteFile(pb, clean)
 	needs := vxrt.Choice("what-the-other-files-need", 3)
 	switch needs {
 	case 0: // a stale entry in the file before and in the file after
-		writeFile(pa, frame("TestA - 1", "a")+frame("TestOld - 1", "stale"))
-		writeFile(pc, frame("TestOld - 2", "stale")+frame("TestC - 1", "c"))
+		vxWriteFile(pa, vxFrame("TestA - 1", "a")+vxFrame("TestOld - 1", "stale"))
+		vxWriteFile(pc, vxFrame("TestOld - 2", "stale")+vxFrame("TestC - 1", "c"))
 	case 1: // the others are unsorted
-		writeFile(pa, frame("TestZ - 1", "z")+frame("TestA - 1", "a"))
-		writeFile(pc, frame("TestZ - 2", "z")+frame("TestC - 1", "c"))
+		vxWriteFile(pa, vxFrame("TestZ - 1", "z")+vxFrame("TestA - 1", "a"))
+		vxWriteFile(pc, vxFrame("TestZ - 2", "z")+vxFrame("TestC - 1", "c"))
 	default: // nothing to do anywhere
-		writeFile(pa, frame("TestA - 1", "a"))
-		writeFile(pc, frame("TestC - 1", "c"))
+		vxWriteFile(pa, vxFrame("TestA - 1", "a"))
+		vxWriteFile(pc, vxFrame("TestC - 1", "c"))
 	}
 	reg := map[string]map[string]int{pa: {"TestA": 1, "TestZ": 1}, pb: {"TestB": 2}, pc: {"TestC": 1, "TestZ": 2}}
 	stampB := vxrt.FileStamp(pb)
@@ -352,5 +352,32 @@ func H_C10_secondfile() {
 	if needs == 0 {
 		vxrt.Assert(len(obsolete) == 2, "C10:both-stale-entries-found")
 	}
-	vxrt.Assert(vxrt.FileStamp(pb) == stampB && readFile(pb) == clean, "C10:file-needing-nothing-is-not-written")
+	vxrt.Assert(vxrt.FileStamp(pb) == stampB && vxReadFile(pb) == clean, "C10:file-needing-nothing-is-not-written")
+}
+
+// H_C10_both: pruning and sorting requested together on a file that needs both: the stale entry
+// goes, the survivors end up in natural order with their values, and a second Clean changes nothing.
+func H_C10_both() {
+	vxrt.EnvFixed("NO_COLOR", "1")
+	vxCalibrateExamineSnaps()
+	dir := vxrt.Dir()
+	path := dir + "/f.snap"
+	fb, fa, f10, fold := vxFrame("TestB - 1", "b"), vxFrame("TestA - 2", "a2"), vxFrame("TestA - 10", "a10"), vxFrame("TestOld - 1", "stale")
+	var content string
+	switch vxrt.Choice("stale-position", 3) {
+	case 0:
+		content = fold + fb + f10 + fa
+	case 1:
+		content = fb + fold + f10 + fa
+	default:
+		content = fb + f10 + fa + fold
+	}
+	vxWriteFile(path, content)
+	reg := map[string]map[string]int{path: {"TestA": 10, "TestB": 1}}
+	obsolete, err := examineSnaps(reg, []string{path}, "", 1, true, true)
+	vxrt.Assert(err == nil && len(obsolete) == 1, "C10:examine-succeeds")
+	vxrt.Assert(vxReadFile(path) == fa+f10+fb, "C10:sorted-in-natural-order")
+	stamp := vxrt.FSStamp()
+	_, err = examineSnaps(reg, []string{path}, "", 1, true, true)
+	vxrt.Assert(err == nil && vxrt.FSStamp() == stamp, "C10:second-run-changes-nothing")
 }
